@@ -203,6 +203,7 @@ func RunC01(e *core.Env) int {
 		parts = 1
 	}
 	ms, total := matrixScenarios(e.Seed, parts)
+	ms = append(hotCells(), ms...)
 	rep.Extra("matrix_methods_total", total)
 	rep.Extra("matrix_methods_run", len(ms))
 	for start, bi := 0, 0; start < len(ms); start, bi = start+200, bi+1 {
